@@ -717,4 +717,45 @@ example : Rsa.Dataset.WFex exDS ∧ 0 < exDS.nObs ∧ 0 < exDS.nChan := by
   refine ⟨⟨2, 2, 1, ⟨rfl, ?_, ?_, ?_, ?_, ?_⟩⟩, by decide, by decide⟩ <;>
     simp [exDS, Rsa.Dataset.Tbl.wf]
 
+/-! ### round 7: strings are compared character for character -/
+
+/-- "Equal" never identifies two different strings — not as a scalar, not as an entry of an array
+    (whatever its container and wherever it stands) — and the UTF-8 bytes stored for a string
+    determine it: no blank, tab, newline, control character or combining mark may be dropped or
+    merged between saving and loading (`"face " ≠ "face"`, `" " ≠ ""`, NFC ≠ NFD).  Together with
+    `roundtrip` (`canon o' = canon o`) this is "exact comparison after reload" for every string. -/
+theorem strings_exact (s s' : String) :
+    (canon (.str s) = canon (.str s') ↔ s = s') ∧
+    (∀ (c c' : Cont) (sh : List Nat) (pre post : List Atom),
+      canon (.tens c sh (pre ++ .str s :: post)) = canon (.tens c' sh (pre ++ .str s' :: post))
+        ↔ s = s') ∧
+    (encStr .utf8 s = encStr .utf8 s' ↔ s = s') := by
+  refine ⟨⟨fun h => by simpa [canon] using h, fun h => h ▸ rfl⟩, ?_, ?_⟩
+  · intro c c' sh pre post
+    constructor
+    · intro h
+      simpa [canon, canonAtom] using h
+    · intro h
+      subst h
+      simp [canon]
+  · constructor
+    · intro h
+      have h1 := codec_roundtrip s
+      rw [h, codec_roundtrip s'] at h1
+      exact (Except.ok.inj h1).symm
+    · intro h
+      subst h
+      rfl
+
+example : canon (.str "face ") ≠ canon (.str "face") ∧ canon (.str " ") ≠ canon (.str "") ∧
+    canon (.tens .list [2] [.str "a", .str "a "]) ≠ canon (.tens .nd [2] [.str "a", .str "a"]) ∧
+    canon (.str "e\u0301") ≠ canon (.str "\u00e9") ∧
+    encStr .utf8 "a\t" ≠ encStr .utf8 "a" := by
+  refine ⟨?_, ?_, ?_, ?_, ?_⟩
+  · rw [Ne, (strings_exact _ _).1]; decide
+  · rw [Ne, (strings_exact _ _).1]; decide
+  · exact fun h => absurd (((strings_exact "a " "a").2.1 .list .nd [2] [.str "a"] []).mp h) (by decide)
+  · rw [Ne, (strings_exact _ _).1]; decide
+  · rw [Ne, (strings_exact _ _).2.2]; decide
+
 end Rsa.Props.C16
